@@ -319,7 +319,6 @@ theorem isDup_false_of_key (pre : List Target) (tg : Target)
 
 /-- what the proof needs of one route (instances of the fields of `RebuildOK`) -/
 structure RouteOK (env : Env) (r : Route) : Prop where
-  pos : ∀ tg ∈ r.targets, 0 < tg.weight
   keys : (r.targets.map dupKey).Nodup
   url : ∀ tg ∈ r.targets, tg.url ≠ [] ∧ env.normURL tg.url = some tg.url
   globH : env.globOK r.host = true
@@ -359,7 +358,7 @@ theorem specAdd_step (env : Env) (S : Spec) (r : Route) (pre : List Target) (tg 
 /-! ### one route -/
 
 def blockDefs (r : Route) : List RouteDef :=
-  (r.targets.filter (fun t => decide (0 < t.weight))).map (defOfTarget r)
+  r.targets.map (defOfTarget r)
 
 theorem foldlM_ok_cons (env : Env) (S S' : Spec) (d : RouteDef) (ds : List RouteDef)
     (h : specApply env S d = .ok S') :
@@ -396,11 +395,6 @@ theorem targets_run (env : Env) (S : Spec) (r : Route)
 theorem block_run (env : Env) (S : Spec) (r : Route) (hr : RouteOK env r) (hS : S r.host r.path = []) :
     (blockDefs r).foldlM (specApply env) S = .ok (upd S r.host r.path (weigh (r.targets.map norm4))) := by
   unfold blockDefs
-  have hf : r.targets.filter (fun t => decide (0 < t.weight)) = r.targets := by
-    rw [List.filter_eq_self]
-    intro tg ht
-    exact decide_eq_true (hr.pos tg ht)
-  rw [hf]
   have := targets_run env S r hr.src hr.globH hr.globP r.targets [] hr.url (by simpa using hr.keys)
   simp only [List.map_nil, weigh_nil, List.nil_append] at this
   rw [upd_nil_of_nil S _ _ hS] at this
@@ -458,8 +452,6 @@ theorem foldl_step_mem (rs : List Route) (r : Route) : ∀ (S : Spec), Distinct 
 /-! ### the table -/
 
 structure RebuildOK (env : Env) (t : Table) : Prop where
-  /-- targets without traffic share are not rendered -/
-  pos : ∀ kv ∈ t, ∀ r ∈ kv.2, ∀ tg ∈ r.targets, 0 < tg.weight
   /-- else re-adding de-duplicates them -/
   keys : ∀ kv ∈ t, ∀ r ∈ kv.2, (r.targets.map dupKey).Nodup
   /-- `url.Parse ∘ String` is idempotent on rendered URLs -/
@@ -565,7 +557,7 @@ theorem routeOK_of {env : Env} {t : Table} (hw : WF t) (ho : RebuildOK env t) :
     ∀ r ∈ routesOf t, RouteOK env r := by
   intro r hr
   obtain ⟨kv, hm, hr, _⟩ := mem_routesOf.mp hr
-  refine ⟨ho.pos kv hm r hr, ho.keys kv hm r hr, ho.url kv hm r hr, ?_, (ho.glob kv hm).2 r hr, ho.src kv hm r hr⟩
+  refine ⟨ho.keys kv hm r hr, ho.url kv hm r hr, ?_, (ho.glob kv hm).2 r hr, ho.src kv hm r hr⟩
   rw [hw.hostOf kv hm r hr]
   exact (ho.glob kv hm).1
 
@@ -650,7 +642,7 @@ theorem keys_tab0 : ∀ kv ∈ tab0, ∀ r ∈ kv.2, (r.targets.map dupKey).Nodu
   exact of_decide_eq_true (List.all_eq_true.mp (List.all_eq_true.mp h kv hkv) r hr)
 
 theorem ok_tab0 : RebuildOK env0 tab0 :=
-  ⟨by decide +kernel, keys_tab0, by decide +kernel, by decide +kernel, by decide +kernel⟩
+  ⟨keys_tab0, by decide +kernel, by decide +kernel, by decide +kernel⟩
 
 example : specRun env0 (defsOfTable tab0) = .ok (fun h p => weigh ((abs tab0 h p).map norm4)) :=
   rebuild_spec inv_tab0 ok_tab0
